@@ -59,9 +59,12 @@ func After(d Duration) *csched.Chan[Time] {
 	return c
 }
 
-// Timer is the handle returned by AfterFunc.
+// Timer is the handle returned by AfterFunc and NewTimer.
 type Timer struct {
+	C              *csched.Chan[Time] // nil for AfterFunc timers
+	f              func()
 	stopped, fired bool
+	gen            int
 }
 
 // Stop prevents the timer from firing; it reports whether it did so before the timer fired.
@@ -71,21 +74,47 @@ func (t *Timer) Stop() bool {
 	return was
 }
 
-// AfterFunc runs f in its own thread at any point the explorer chooses after
-// the call (if the harness policy allows that timer to fire and it has not been stopped).
-func AfterFunc(d Duration, f func()) *Timer {
-	t := &Timer{}
+// Reset re-arms the timer; it reports whether the timer had been active.
+func (t *Timer) Reset(d Duration) bool {
+	was := !t.stopped && !t.fired
+	t.stopped, t.fired = false, false
+	t.gen++
+	t.arm(d)
+	return was
+}
+
+func (t *Timer) arm(d Duration) {
 	idx := timers
 	timers++
 	allowed := MayFire(idx, d)
 	if csched.S == nil {
-		return t
+		return
 	}
+	gen := t.gen
 	csched.GoDaemon(func() {
-		csched.S.Point(func() bool { return allowed && !t.stopped }, "timer.func")
+		csched.S.Point(func() bool { return allowed && !t.stopped && t.gen == gen }, "timer.fire")
 		t.fired = true
 		Fired++
-		f()
+		if t.f != nil {
+			t.f()
+		} else {
+			csched.TrySend(t.C, Now())
+		}
 	})
+}
+
+// NewTimer: the channel receives at any point the explorer chooses after the call (if the
+// harness policy allows that timer to fire and it has not been stopped).
+func NewTimer(d Duration) *Timer {
+	t := &Timer{C: csched.MakeChan[Time](1)}
+	t.arm(d)
+	return t
+}
+
+// AfterFunc runs f in its own thread at any point the explorer chooses after
+// the call (if the harness policy allows that timer to fire and it has not been stopped).
+func AfterFunc(d Duration, f func()) *Timer {
+	t := &Timer{f: f}
+	t.arm(d)
 	return t
 }
